@@ -85,7 +85,7 @@ func DistanceLineToLine(line1Start, line1End, line2Start, line2End geom.Coord) f
 	if Equals(line1Start, line1End) {
 		return DistancePointToLine(line1Start, line2Start, line2End)
 	}
-	if Equals(line2Start, line1End) {
+	if Equals(line2Start, line2End) {
 		return DistancePointToLine(line2Start, line1Start, line1End)
 	}
 
@@ -103,32 +103,22 @@ func DistanceLineToLine(line1Start, line1End, line2Start, line2End geom.Coord) f
 		panic("Ordinates must not be NaN")
 	}
 
+	// The squared distance is a convex function of the two line parameters, so unless its
+	// unconstrained minimum lies within both segments (and the lines are not parallel) the minimum
+	// over the segments is attained where one of the four endpoints is closest to the other segment.
+	inInteriors := false
 	var s, t float64
-	if denom <= 0.0 {
-		/**
-		 * The lines are parallel.
-		 * In this case solve for the parameters s and t by assuming s is 0.
-		 */
-		s = 0
-		// choose largest denominator for optimal numeric conditioning
-		if b > c {
-			t = d / b
-		} else {
-			t = e / c
-		}
-	} else {
+	if denom > 0.0 {
 		s = (b*e - c*d) / denom
 		t = (a*e - b*d) / denom
+		inInteriors = s >= 0 && s <= 1 && t >= 0 && t <= 1
 	}
-	switch {
-	case s < 0:
-		return DistancePointToLine(line1Start, line2Start, line2End)
-	case s > 1:
-		return DistancePointToLine(line1End, line2Start, line2End)
-	case t < 0:
-		return DistancePointToLine(line2Start, line1Start, line1End)
-	case t > 1:
-		return DistancePointToLine(line2End, line1Start, line1End)
+	if !inInteriors {
+		return min(
+			DistancePointToLine(line1Start, line2Start, line2End),
+			DistancePointToLine(line1End, line2Start, line2End),
+			DistancePointToLine(line2Start, line1Start, line1End),
+			DistancePointToLine(line2End, line1Start, line1End))
 	}
 	/**
 	 * The closest points are in interiors of segments,
